@@ -136,6 +136,13 @@ def gen_con(w, c, path, sh, depth, flagval):
     val, exp, s = {}, {}, Seq()
     flags = {}
     for name, t, cond in c.fields:
+        if t == '#' and not any(cd is not None and cd[0] == name for _, _, cd in c.fields):
+            # a plain 32-bit natural that guards nothing (count:#, seqno:# ...): symbolic over its whole range (the library reads and
+            # writes it as a signed int32, so the canonical value is the signed image)
+            v = w.int(f'{path}.{name}', -(1 << 31), (1 << 31) - 1)
+            val[name] = exp[name] = v
+            s = s + ST.le_int(v, 4)
+            continue
         if t == '#':
             used = sorted({cd[1] for _, _, cd in c.fields if cd is not None and cd[0] == name})
             if flagval is not None and depth <= 1:
